@@ -48,6 +48,32 @@ impl Shards {
     }
 
     fn write(&mut self, v: &Value) {
+        // TLC's JSON reader has no null: nulls travel as the string "null"
+        fn has_null(v: &Value) -> bool {
+            match v {
+                Value::Null => true,
+                Value::Array(a) => a.iter().any(has_null),
+                Value::Object(o) => o.values().any(has_null),
+                _ => false,
+            }
+        }
+        fn denull(v: &mut Value) {
+            match v {
+                Value::Null => *v = Value::String("null".into()),
+                Value::Array(a) => a.iter_mut().for_each(denull),
+                Value::Object(o) => o.values_mut().for_each(denull),
+                _ => {}
+            }
+        }
+        let tmp;
+        let v = if has_null(v) {
+            let mut c = v.clone();
+            denull(&mut c);
+            tmp = c;
+            &tmp
+        } else {
+            v
+        };
         let f = &mut self.files[self.cur];
         serde_json::to_writer(&mut *f, v).expect("write trace");
         f.write_all(b"\n").expect("write trace");
